@@ -74,6 +74,12 @@ func init() {
 							}
 							cells = append(cells, cp(conf, "launch", launch, "beh", beh, "pat", pat))
 						}
+						if launch == "reattach" && beh != "never-connected" {
+							// the launching host and the reattached one both shut the plugin down
+							for _, off := range []string{"0", "50ms", "300ms"} {
+								cells = append(cells, cp(conf, "launch", launch, "beh", beh, "pat", "two-hosts", "off", off))
+							}
+						}
 					}
 				}
 			}
@@ -96,7 +102,7 @@ func init() {
 				}
 			}
 			for _, c := range cells {
-				out = append(out, sp("C04", fmt.Sprintf("cell/%s/%s/%s/%s", confLabel(c), c["launch"], c["beh"], c["pat"]), seed, c))
+				out = append(out, sp("C04", fmt.Sprintf("cell/%s/%s/%s/%s%s", confLabel(c), c["launch"], c["beh"], c["pat"], c["off"]), seed, c))
 			}
 			// Kill (or CleanupClients) issued while another goroutine's Start is
 			// still waiting for the handshake of a plugin that will fail it
@@ -312,6 +318,19 @@ func runC04(r *h.Run) {
 				return
 			}
 		}
+		if pat == "two-hosts" {
+			// both hosts are connected before either shuts the plugin down (a host
+			// that cannot reach the plugin any more - its listener is gone once
+			// the first request arrived - force-kills it, by design)
+			if o := r.DoNoHang("ClientA["+p.name+"]", 60*time.Second, ctx, func() (any, error) { return p.a.Client() }); o.Hung {
+				return
+			} else if o.Err != nil {
+				if w.FaultCount("conn.rst") == 0 {
+					r.Violate("setup", "launching host connect failed "+ctx, fmt.Sprint(o.Err))
+				}
+				return
+			}
+		}
 		var cmd plugins.Cmd
 		if p.beh != "never-connected" && pat != "race-client" {
 			o = r.DoNoHang("Client["+p.name+"]", 60*time.Second, ctx, func() (any, error) {
@@ -397,6 +416,25 @@ func runC04(r *h.Run) {
 		wg.Wait()
 		// a Client() that raced may have re-created the connection; Kill again is allowed and must return
 		outs = append(outs, killOne(ps[0], "#after"))
+	case "two-hosts":
+		// the launching host's client first, the reattached one's a little later
+		// (while the plugin is on its way out)
+		var wg sync.WaitGroup
+		var mu sync.Mutex
+		wg.Add(1)
+		go k.Trap(func() {
+			defer wg.Done()
+			o := r.Do("Kill[launching host]", B+60*time.Second, func() (any, error) { ps[0].a.Kill(); return nil, nil })
+			mu.Lock()
+			outs = append(outs, o)
+			mu.Unlock()
+		})
+		time.Sleep(parseDur(r.Spec.P("off", "0")))
+		o := killOne(ps[0], "#reattached")
+		mu.Lock()
+		outs = append(outs, o)
+		mu.Unlock()
+		wg.Wait()
 	case "cleanup-clients":
 		outs = append(outs, r.Do("CleanupClients", B+60*time.Second, func() (any, error) { plugin.CleanupClients(); return nil, nil }))
 	case "preempt-kill":
